@@ -356,12 +356,16 @@ fn build_scene(ctx: &Ctx) -> m::Scene {
     let no_int = ctx.flag("no-intensity");
     let no_iflag = ctx.flag("no-intensity-flag");
     let no_rowcol = ctx.flag("no-row-column");
-    let ctype = ctx.choose("coord-type", 3);
+    let ctype = ctx.choose("coord-type", 6);
     let bad = ctx.choose("bad-state", 1 + 4 * 3);
     let cty = match ctype {
         0 => Ty::F64 { min: None, max: None },
         1 => Ty::F32 { min: None, max: None },
-        _ => Ty::Scaled { min: -100_000, max: 100_000, scale: 0.001, offset: 0.5 },
+        2 => Ty::Scaled { min: -100_000, max: 100_000, scale: 0.001, offset: 0.5 },
+        // scale exactly 1 with an offset, offset 0 with a scale, and plain integers
+        3 => Ty::Scaled { min: -100_000, max: 100_000, scale: 1.0, offset: -120.5 },
+        4 => Ty::Scaled { min: -100_000, max: 100_000, scale: -0.25, offset: 0.0 },
+        _ => Ty::Int { min: -100_000, max: 100_000 },
     };
     let state_ty = Ty::Int { min: -1, max: 255 };
     let mut proto: Vec<Rec> = Vec::new();
@@ -409,6 +413,7 @@ fn build_scene(ctx: &Ctx) -> m::Scene {
                 match &r.ty {
                     Ty::F64 { .. } => Val::F64(a),
                     Ty::F32 { .. } => Val::F32(a as f32),
+                    Ty::Int { .. } => Val::Int(((a - 0.5) * 1000.0).round() as i64),
                     _ => Val::Scaled(((a - 0.5) * 1000.0).round() as i64),
                 }
             };
